@@ -20,35 +20,41 @@ Definition inject_tok (t : token) : pyval :=
                                    ++ (match t_mints t with Some l => [(PS "supports_minting", VList (List.map (fun c => VStr (cls_name c)) l))] | None => [] end))%list);
          (PS "revoked", VBool (t_revoked t)); (PS "not_before", VInt 0); (PS "expires_at", VInt (t_exp t)) ].
 
+(* Proof style: the translated function is unfolded completely, the finitely many shapes of the injected object are
+   split, every integer comparison met on the way is split with its specification, and what remains are equations
+   between closed booleans (reflexivity) or contradictory arithmetic (lia).  Nothing depends on the ORDER in which the
+   source performs its tests, on nesting vs. `and`, or on local names: an equivalent rewrite of the method re-proves. *)
+Ltac zstep :=
+  match goal with
+  | |- context [Z.gtb ?a ?b] => rewrite (Z.gtb_ltb a b)
+  | |- context [Z.geb ?a ?b] => rewrite (Z.geb_leb a b)
+  | |- context [Z.eqb ?a ?b] => destruct (Z.eqb_spec a b)
+  | |- context [Z.ltb ?a ?b] => destruct (Z.ltb_spec a b)
+  | |- context [Z.leb ?a ?b] => destruct (Z.leb_spec a b)
+  end.
+Ltac src_crunch :=
+  repeat (cbn -[Z.eqb Z.gtb Z.ltb Z.leb Z.geb]; zstep); cbn -[Z.eqb Z.gtb Z.ltb Z.leb Z.geb];
+  try reflexivity; try (exfalso; lia).
+
 Lemma max_usage_reached_refines t clock :
   Item_max_usage_reached_src (inject_tok t) clock = Ok (VBool (max_reached t)).
 Proof.
-  unfold Item_max_usage_reached_src, inject_tok, max_reached. destruct (t_max t) as [m|]; destruct (t_mints t); cbn;
-    rewrite ?Z.geb_leb; reflexivity.
+  unfold Item_max_usage_reached_src, inject_tok, max_reached. destruct (t_max t) as [m|]; destruct (t_mints t); src_crunch.
 Qed.
 
 (* Item.is_active(now) for an explicit non-zero `now` is exactly the model's tok_active *)
 Theorem is_active_refines t now clock :
   now <> 0 -> Item_is_active_src (inject_tok t) (VInt now) (VInt clock) = Ok (VBool (tok_active now t)).
 Proof.
-  intros Hn. unfold Item_is_active_src. rewrite max_usage_reached_refines. unfold tok_active.
-  cbn [bind py_truthy]. destruct (max_reached t); [reflexivity|]. cbn [negb andb].
-  unfold inject_tok. cbn [bind py_getattr assoc str_eqb PS]. cbn -[Z.eqb Z.gtb Z.ltb Z.leb].
-  destruct (t_revoked t); [reflexivity|]. cbn -[Z.eqb Z.gtb Z.ltb Z.leb].
-  assert ((now =? 0) = false) as -> by (now apply Z.eqb_neq). cbn -[Z.eqb Z.gtb Z.ltb Z.leb].
-  destruct (t_exp t =? 0) eqn:E; cbn -[Z.eqb Z.gtb Z.ltb Z.leb]; [reflexivity|].
-  rewrite Z.gtb_ltb. destruct (Z.ltb_spec (t_exp t) now); destruct (Z.leb_spec now (t_exp t)); try lia; reflexivity.
+  intros Hn. unfold Item_is_active_src, Item_max_usage_reached_src, inject_tok, tok_active, max_reached.
+  destruct (t_max t) as [m|]; destruct (t_mints t); destruct (t_revoked t); src_crunch.
 Qed.
 (* with now = 0 the method reads the clock *)
 Theorem is_active_refines_clock t clock :
   clock <> 0 -> Item_is_active_src (inject_tok t) (VInt 0) (VInt clock) = Ok (VBool (tok_active clock t)).
 Proof.
-  intros Hn. unfold Item_is_active_src. rewrite max_usage_reached_refines. unfold tok_active.
-  cbn [bind py_truthy]. destruct (max_reached t); [reflexivity|]. cbn [negb andb].
-  unfold inject_tok. cbn -[Z.eqb Z.gtb Z.ltb Z.leb].
-  destruct (t_revoked t); [reflexivity|]. cbn -[Z.eqb Z.gtb Z.ltb Z.leb].
-  destruct (t_exp t =? 0) eqn:E; cbn -[Z.eqb Z.gtb Z.ltb Z.leb]; [reflexivity|].
-  rewrite Z.gtb_ltb. destruct (Z.ltb_spec (t_exp t) clock); destruct (Z.leb_spec clock (t_exp t)); try lia; reflexivity.
+  intros Hn. unfold Item_is_active_src, Item_max_usage_reached_src, inject_tok, tok_active, max_reached.
+  destruct (t_max t) as [m|]; destruct (t_mints t); destruct (t_revoked t); src_crunch.
 Qed.
 
 Lemma cls_name_inj a b : pyval_eqb (VStr (cls_name a)) (VStr (cls_name b)) = tcls_eqb a b.
@@ -68,10 +74,7 @@ Qed.
 Theorem is_expired_refines exp when clock :
   is_expired_src (VInt exp) (VInt when) (VInt clock)
   = Ok (VBool (if exp <? 0 then false else (if when =? 0 then clock else when) >? exp)).
-Proof.
-  unfold is_expired_src. cbn -[Z.ltb Z.gtb Z.eqb]. destruct (exp <? 0); cbn -[Z.ltb Z.gtb Z.eqb]; [reflexivity|].
-  destruct (when =? 0); reflexivity.
-Qed.
+Proof. unfold is_expired_src. src_crunch. Qed.
 
 (* ------------------------------------------------------------------ client secrets *)
 Definition inject_client (c : ClientAuthn.client) : pyval :=
@@ -81,8 +84,7 @@ Theorem valid_client_secret_refines c now :
   valid_client_secret_src (inject_client c) (VInt now) = Ok (VBool (ClientAuthn.valid_client_secret c now)).
 Proof.
   unfold valid_client_secret_src, inject_client, ClientAuthn.valid_client_secret.
-  destruct (ClientAuthn.c_secret c) as [s|]; destruct (ClientAuthn.c_expires c) as [e|]; cbn -[Z.ltb Z.eqb]; try reflexivity.
-  - destruct (e =? 0); cbn -[Z.ltb Z.eqb]; [reflexivity|]. destruct (e <? now); reflexivity.
+  destruct (ClientAuthn.c_secret c) as [s|]; destruct (ClientAuthn.c_expires c) as [e|]; src_crunch.
 Qed.
 
 (* ------------------------------------------------------------------ the session key *)
